@@ -48,7 +48,8 @@ PROBES = ['stop_in_event_wait', 'stop_before_first_instruction',
           'stop_between_check_and_wait', 'stop_in_time_of_day_wait',
           'stop_as_script_finished', 'stop_after_end_noop',
           'stop_between_instructions', 'follower_ran_complete',
-          'rerun_same_object', 'stop_all_cleared_queue', 'stall']
+          'rerun_same_object', 'stop_all_cleared_queue', 'stall',
+          'stop_through_front_end', 'stop_during_handover']
 WALL_CAP = {'quick': 170, 'thorough': 1700}
 
 TYPES = ('LightSetColor', 'LightSetPower', 'MultiZoneSetColorZones',
@@ -90,8 +91,19 @@ def targets():
     from bardolph.lib import clock
     from bardolph.vm import machine
     from bardolph.controller import script_job
+    from bardolph.lib import job_control
     c, m, s = clock.__file__, machine.__file__, script_job.__file__
+    j = job_control.__file__
     t = {
+        # the finishing job's thread handing over to the next queued job
+        'handover_clear': ('job_control.py', _find_line(
+            j, 'self._active_agent = None', after='def _on_execution_done')),
+        'handover_next': ('job_control.py', _find_line(
+            j, 'self._run_next_job()', after='def _on_execution_done')),
+        'handover_pop': ('job_control.py', _find_line(
+            j, 'self._queue.popleft()', after='def _run_next_job')),
+        'handover_unlock': ('job_control.py', _find_line(
+            j, 'self._release_lock()', after='def _run_next_job')),
         'before_reset': ('script_job.py', _find_line(s, 'self._machine.reset()')),
         'before_run': ('script_job.py', _find_line(s, 'self._machine.run(')),
         'clock_start': ('machine.py', _find_line(m, 'self._clock.start()')),
@@ -211,11 +223,15 @@ def gen(rng, tier, index):
     pol = policy.draw_policy(rng, est_len=600, stalls=True)
     if timing['mode'] == 'target' and pol['gran'] == 'opcode':
         pol['gran'] = 'line'
+    # stop-current / stop-all as the browser issues them: through the
+    # routing layer (web/front_end.py), with the shipped kind of manifest
+    # that has no entries of its own for these two pages
+    front = how in ('stop_current', 'stop_all') and rng.random() < 0.35
     return {'policy': pol, 'population': pop, 'tick': tick, 'shape': shape,
             'start': [hour, minute, second], 'main': text,
             'followers': followers, 'how': how, 'timing': timing,
             'rerun': rerun, 'bg': bg, 'pre_stop': pre_stop, 'second': second_stop,
-            'other': _follower_text(rng, pop, 5)}
+            'other': _follower_text(rng, pop, 5), 'front': front}
 
 
 def shrink(sc):
@@ -361,6 +377,8 @@ def solo_timeline(text, pop, tick, start, duration):
 
 def execute(scenario, chooser):
     import datetime
+    from sim import flask_stub
+    flask_stub.install()
     from bardolph.controller.script_job import ScriptJob
     sc = scenario
     cap = env.capture_logs()
@@ -411,6 +429,21 @@ def execute(scenario, chooser):
         st['armed_ref'] = armed
         wa = WebApp()
         jc = world.job_control_of(wa)
+        if sc.get('front'):
+            from web import front_end, i_web
+            env.install_web()
+            injection.bind_instance(wa).to(i_web.WebApp)
+
+        def front_route(path):
+            # what the page shows afterwards (or that rendering it fails for
+            # want of a manifest entry) is C20's business; the stop is ours
+            sim.count('stop_through_front_end')
+            try:
+                front_end.blueprint.dispatch(path)
+            except core.SimAbort:
+                raise
+            except Exception:
+                sim.count('front_end_page_failed')
         main_job = RecJob('main')
         main_job.load_string(sc['main'])
         if main_job.program is None:
@@ -450,9 +483,14 @@ def execute(scenario, chooser):
                 elif how == 'stop_job':
                     wa.stop_script('main')
                 elif how == 'stop_current':
-                    wa.stop_current()
+                    if sc.get('front'):
+                        front_route('/stop-current')
+                    else:
+                        wa.stop_current()
                 elif how == 'stop_background':
                     jc.stop_background()
+                elif sc.get('front'):
+                    front_route('/stop-all')
                 else:
                     wa.stop_all()
             except core.SimAbort:
@@ -478,9 +516,14 @@ def execute(scenario, chooser):
                     elif how == 'stop_job':
                         wa.stop_script('main')
                     elif how == 'stop_current':
-                        wa.stop_current()
+                        if sc.get('front'):
+                            front_route('/stop-current')
+                        else:
+                            wa.stop_current()
                     elif how == 'stop_background':
                         jc.stop_background()
+                    elif sc.get('front'):
+                        front_route('/stop-all')
                     else:
                         wa.stop_all()
                 except core.SimAbort:
@@ -710,6 +753,11 @@ def _judge(sc, st, hist, sim, cap, violation, probes, res):
     res['nontrivial'] = not main_ended_before
 
     # ---- probes: where did the stop land ---------------------------------
+    tag0 = st.get('main_tag_at_inv') or ()
+    if any(tuple(tag0[:2]) == tuple(targets().get(k, ()))
+           for k in ('handover_clear', 'handover_next', 'handover_pop',
+                     'handover_unlock')):
+        probes['stop_during_handover'] = 1
     if main_ended_before:
         probes['stop_after_end_noop'] = 1
     else:
